@@ -131,12 +131,26 @@ example : okInst exOuter (.struct [.struct [.int 1, .int 2, .int 0, .text "z"], 
 example : fromValue exE02 (toValue exE02 (.variant 4 [.text "h", .int 0, .none])) = some (.variant 4 [.text "h", .int 0, .none]) :=
   C16_from_to _ _ (by decide) (by decide)
 
-/-- Open (T2): `#[form(newtype)]` structs are in the executable model and in the correspondence (battery N01, N02,
-N03, S27, S34, S38) but not yet inside `tyWF`; candidate statement: -/
-def C16_newtype_from_to_open : Prop :=
-  ∀ (n : String) (l : Bool) (t : Ty) (rest : Fields) (x : Inst),
-    tyWF t = true → allSkip rest = true → okInst (.newtype (.cons n l .slot t rest)) x = true →
-    fromValue (.newtype (.cons n l .slot t rest)) (toValue (.newtype (.cons n l .slot t rest)) x) = some x
+/-- **T2**: `#[form(newtype)]` structs (everything delegated to the single field that is not skipped) are inside
+`tyWF` in slot, header, attribute, header-body, list and option position (battery N01, N02, N03, S27); this is the
+former open statement, now a corollary of `C16_from_to`. A newtype used as `#[form(body)]` stays outside (`bodySafe`;
+battery S33 shows it fails over a primitive, S34/S38 are tied by correspondence only). -/
+theorem C16_newtype_from_to (n : String) (l : Bool) (t : Ty) (rest : Fields) (x : Inst)
+    (ht : tyWF t = true) (hr : allSkip rest = true) (hx : okInst (.newtype (.cons n l .slot t rest)) x = true) :
+    fromValue (.newtype (.cons n l .slot t rest)) (toValue (.newtype (.cons n l .slot t rest)) x) = some x := by
+  apply C16_from_to _ _ _ hx
+  simp [tyWF, ntWF, ht, hr]
+
+def exN01 : Ty := .newtype (.cons "" false .slot (.int .i32) .nil)
+def exN03 : Ty := .newtype (.cons "" false .slot (.list (.int .i32)) (.cons "" false .skip (.int .i32) .nil))
+/-- battery type S27 with N03 added: newtypes as attribute, slot, optional header slot, list element -/
+def exS27 : Ty := .struct "S27"
+  (.cons "a" true .attr exN01 (.cons "n" true .slot (.newtype (.cons "inner" true .slot exInner .nil))
+  (.cons "h" true .header (.opt exN01) (.cons "v" true .slot (.list exN03) .nil))))
+example : tyWF exS27 = true := by decide
+example : fromValue exS27 (toValue exS27 (.struct [.struct [.int 1], .struct [.struct [.int 2, .text "x"]], .none,
+    .list [.struct [.list [.int 3], .int 0]]])) = some (.struct [.struct [.int 1], .struct [.struct [.int 2, .text "x"]], .none,
+    .list [.struct [.list [.int 3], .int 0]]]) := C16_from_to _ _ (by decide) (by decide)
 
 /-! ### what the derive macro accepts but the layout cannot invert
 
